@@ -331,7 +331,7 @@ def run(tier="quick", mktable=False):
     for rid, txt in (("T1", "wrapper mirrors its allocation exactly when the runtime level is at the memory level"),
                      ("T2", "every table edit is dominated by the runtime gate"), ("T4", "not-found leaves the table unchanged"),
                      ("T5", "REALLOC macro and spifmem_realloc agree on (NULL?,0?)"), ("T6", "allocation macros map to wrappers iff DEBUG >= DEBUG_MEM"),
-                     ("T7", "no raw allocator call outside mem.c except via the macros"), ("T8", "file name copied with the bound of its field")):
+                     ("T7", "no raw allocator call outside mem.c except via the macros"), ("T9", "removing a record closes the gap with exactly the records behind it"), ("T8", "file name copied with the bound of its field")):
         chk.rule(rid, txt)
     prog = facts.extract()
     u = prog.units.get("mem.c")
@@ -502,6 +502,140 @@ def run(tier="quick", mktable=False):
         return 0
     chk.ob("T7", "libast", "raw-allocator-calls", not any(o.rule == "T7" and not o.ok for o in chk.obls), loc="src/",
            proof="%d raw allocator calls outside mem.c, all through the allocation macros or frozen exceptions" % nraw, detail="see individual reports")
+    # T9 removing a record keeps every other record: the function that takes a slot out of the pointer table closes the gap
+    # with a move of exactly (records after the slot) elements whenever there are any.  GHOSTPOS over cnt and the slot's
+    # offset (pointer expressions are read as element offsets from memrec->ptrs), so the clause does not depend on how the
+    # code spells the slot (pointer, index, &ptrs[i]).
+    from ..ghostpos import GhostPos
+    from ..lin import Lin, entails, feasible
+    n9 = 0
+    for fn in u.functions.values():
+        finds = []
+        for x in walk(fn.body):
+            rhs = None
+            if x.get("k") == "assign" and x.get("op") == "=":
+                lhs, rhs = X.strip(x["ch"][0]), x["ch"][1]
+            elif x.get("k") == "decl":
+                for dcl in x.get("decls", ()):
+                    if dcl.get("init") is not None:
+                        lhs, rhs = {"k": "ref", "d": dcl["d"], "rk": "local"}, dcl["init"]
+            if rhs is not None and X.strip(rhs).get("k") == "call" and X.callee_name(X.strip(rhs)) == "memrec_find_var" and lhs.get("k") == "ref":
+                finds.append(lhs["d"])
+        decs = [x for x in walk(fn.body) if (x.get("k") == "un" and x.get("op") == "--" or (x.get("k") == "assign" and x.get("op") == "-=")) and
+                X.strip(x["ch"][0]).get("k") == "member" and X.strip(x["ch"][0]).get("n") == "cnt"]
+        if not finds or not decs or not fn.params:
+            continue
+        n9 += 1
+        slot_d = finds[0]
+        rec_d = fn.params[0]["d"]
+
+        class RecPos(GhostPos):
+            def base_off(self, e):
+                """element offset (Lin) of a pointer expression from memrec->ptrs, or None"""
+                s_ = X.strip(e)
+                if s_ is None:
+                    return None
+                if s_.get("k") == "member" and s_.get("n") == "ptrs":
+                    return Lin.const(0)
+                if s_.get("k") == "ref" and s_.get("d") == slot_d:
+                    return Lin.sym("idx")
+                if s_.get("k") == "bin" and s_.get("op") in ("+", "-") and s_.get("tp"):
+                    b0 = self.base_off(s_["ch"][0])
+                    k0 = self.lin(s_["ch"][1])
+                    if b0 is not None and k0 is not None:
+                        return b0 + k0 if s_["op"] == "+" else b0 - k0
+                if s_.get("k") == "un" and s_.get("op") == "&":
+                    t_ = X.strip(s_["ch"][0])
+                    if t_.get("k") == "index":
+                        b0 = self.base_off(t_["ch"][0])
+                        k0 = self.lin(t_["ch"][1])
+                        if b0 is not None and k0 is not None:
+                            return b0 + k0
+                return None
+
+            def lin(self, e):
+                s_ = X.strip(e)
+                if s_ is not None and s_.get("k") == "member" and s_.get("n") == "cnt":
+                    return Lin.sym("cnt")
+                if s_ is not None and s_.get("k") == "bin" and s_.get("op") == "-" and not s_.get("tp"):
+                    a0, b0 = self.base_off(s_["ch"][0]), self.base_off(s_["ch"][1])
+                    if a0 is not None and b0 is not None:
+                        return a0 - b0
+                if s_ is not None and s_.get("k") == "bin" and s_.get("op") == "*":
+                    # sizeof(record) * n: count in elements
+                    for x_, y_ in ((s_["ch"][0], s_["ch"][1]), (s_["ch"][1], s_["ch"][0])):
+                        if X.strip(x_).get("k") == "sizeof" or (X.const_val(x_) is not None and X.const_val(x_) >= 16):
+                            return self.lin(y_)
+                return GhostPos.lin(self, e)
+
+            def transfer(self, cons, x, blk=None):
+                if x.get("k") in ("un", "assign"):
+                    t_ = X.strip(x["ch"][0])
+                    if t_.get("k") == "member" and t_.get("n") == "cnt":
+                        if x.get("k") == "un" and x.get("op") in ("++", "--"):
+                            return self.assign_sym(cons, "cnt", Lin.sym("cnt") + (1 if x["op"] == "++" else -1))
+                        r_ = self.lin(x["ch"][1]) if x.get("k") == "assign" else None
+                        if x.get("op") == "-=" and r_ is not None:
+                            return self.assign_sym(cons, "cnt", Lin.sym("cnt") - r_)
+                        return self.assign_sym(cons, "cnt", r_ if x.get("op") == "=" else None)
+                if x.get("k") == "call" and X.callee_name(x) in ("memmove", "memcpy") and len(x["ch"]) >= 4:
+                    d_, s__, n_ = self.base_off(x["ch"][1]), self.base_off(x["ch"][2]), self.lin(x["ch"][3])
+                    if d_ is not None and s__ is not None and n_ is not None:
+                        ok_ = (self.proves_eq(cons, d_, Lin.sym("idx")) and self.proves_eq(cons, s__, Lin.sym("idx") + 1) and
+                               self.proves_eq(cons, n_, Lin.sym("cnt") - Lin.sym("idx")))
+                        return frozenset(cons) | ({Lin.sym("moved") - 1} if ok_ else {Lin.sym("badmove") - 1})
+                if x.get("k") == "assign" and X.strip(x["ch"][0]).get("d") == slot_d:
+                    return self.assign_sym(cons, "idx", None)
+                return GhostPos.transfer(self, cons, x, blk)
+
+            def ptr_fact(self, cons, e, isnull):
+                s_ = X.strip(e)
+                if s_ is not None and s_.get("k") == "ref" and s_.get("d") == slot_d:
+                    # memrec_find_var: NULL, or a slot of the table
+                    return [] if isnull else [Lin.sym("idx"), Lin.sym("cnt") - 1 - Lin.sym("idx"), Lin.sym("found") - 1]
+                return None if isnull and s_ is not None and s_.get("d") == rec_d else []
+
+            def refine(self, cons, cond, truth, blk=None):
+                c_ = X.strip(cond)
+                if c_ is not None and c_.get("k") == "bin" and c_.get("op") in ("<", "<=", ">", ">=", "==", "!=") and not isinstance(truth, tuple):
+                    a0, b0 = self.base_off(c_["ch"][0]), self.base_off(c_["ch"][1])
+                    if a0 is not None and b0 is not None:
+                        op_ = c_["op"] if truth else self.NEG[c_["op"]]
+                        return self._add(cons, self._cmp(cons, op_, a0, b0))
+                if c_ is not None and c_.get("k") == "assign" and X.strip(c_["ch"][0]).get("d") == slot_d:
+                    # if (!(p = memrec_find_var(..)))
+                    r_ = self.ptr_fact(cons, c_["ch"][0], not truth)
+                    return None if r_ is None else self._add(cons, r_)
+                return GhostPos.refine(self, cons, cond, truth, blk)
+        g9 = RecPos(fn, prog, self_index=None)
+        g9.run([Lin.sym("cnt")])
+        ends = []
+
+        def v9(st, x, blk):
+            pass
+        # evaluate at every exit of the function: explicit returns and the fall-through end
+        cfg9 = g9.cfg
+        # the states on the edges into the exit block (after the refinement of the branch that leads there)
+        outs = [(k_[0], o_) for k_, o_ in g9.edge_out.items() if k_[2] == cfg9.exit]
+        bad9 = None
+        for b_, st_ in outs:
+            if not entails(list(st_), Lin.sym("found") - 1):
+                continue                       # the not-found exit (T4's subject)
+            if entails(list(st_), Lin.sym("badmove") - 1):
+                bad9 = (b_, st_, "moves the wrong range")
+                break
+            if entails(list(st_), Lin.sym("moved") - 1):
+                continue
+            if entails(list(st_), Lin.sym("idx") - Lin.sym("cnt")):
+                continue                       # nothing after the slot: no move needed
+            bad9 = (b_, st_, "can leave without moving the records behind the slot down although there may be some (records after the slot = cnt - slot > 0 is possible)")
+            break
+        loc9 = fn.loc(decs[0])
+        chk.ob("T9", fn.name, "gap-closed", bad9 is None, loc=loc9,
+               detail="%s removes a slot from the table but %s: the records behind it are lost or duplicated and the table no longer "
+                      "mirrors the live set (state at the exit: %s)" % (fn.name, bad9[2] if bad9 else "", " & ".join(sorted("%r>=0" % c for c in (bad9[1] if bad9 else [])))[:200]),
+               proof="every exit after a successful lookup has moved cnt - slot records from slot+1 to slot, or has cnt - slot <= 0")
+    chk.count("slot_removal_functions", n9, floor=1)
     # T8
     nb = 0
     # every bounded copy into a record's `file` field, wherever mem.c does it (the two edit primitives today; a shared helper
